@@ -110,6 +110,7 @@ class Ctx:
         self.assumptions = []
         self.fresh = 0
         self.notes = {}
+        self.truncated = []      # concretisation sites whose enumeration was cut short (the run is then inconclusive)
 
     def name(self, base):
         self.fresh += 1
@@ -174,6 +175,7 @@ class Ctx:
             return e.as_signed_long() if signed else e.as_long()
         if getattr(self, "no_fork", False):
             raise HarnessError("the oracle (spec / regions) tried to concretise a symbolic value: " + str(e)[:200])
+        skipped = 0
         while True:
             i = len(self.trace)
             if i < len(self.prefix):
@@ -185,16 +187,24 @@ class Ctx:
                     self.assume(e == k[1])
                     return k[1]
                 self.assume(e != k[1])
+                skipped += 1
                 continue
             m = self.witness()
             v = m.eval(e, model_completion=True)
             v = v.as_signed_long() if signed else v.as_long()
             r, _ = self.check(e != v)
-            self.trace.append((("c", v, True), r == "sat"))
+            more = r == "sat"
+            if more and skipped + 1 >= CONCRETISE_MAX:
+                # values are enumerated one path each; a site with more than CONCRETISE_MAX possible values is cut there
+                # and reported: the exploration is then incomplete (inconclusive), never silently so
+                self.truncated.append(str(z3.simplify(e))[:120])
+                more = False
+            self.trace.append((("c", v, True), more))
             self.assume(e == v)
             return v
 
 CTX = None
+CONCRETISE_MAX = 12
 
 def ctx():
     if CTX is None:
@@ -242,6 +252,7 @@ def run_path(fn, prefix):
     res["depth"] = len(c.trace)
     res["wall"] = time.time() - t0
     res["assumptions"] = list(c.assumptions)
+    if c.truncated: res["truncated"] = list(c.truncated)
     return res, _alts(c, len(prefix))
 
 # --------------------------------------------------------------------------- exploration
@@ -534,6 +545,23 @@ class SymI64:
         fb = SymF64.lift(o)
         if fb is None: return NotImplemented
         return SymF64(z3.fpDiv(RNE, fb, fp_of_bv(self.e)))
+    def _divmod_const(self, o):
+        # floor division / modulo by a positive Python constant (NumPy and Python agree: the remainder takes the divisor's sign)
+        if isinstance(o, SymI64):
+            k = z3.simplify(o.e)
+            if not z3.is_bv_value(k): raise ModelGap("integer division by a symbolic divisor")
+            o = k.as_signed_long()
+        if not isinstance(o, int) or isinstance(o, bool) or o <= 0: raise ModelGap(f"integer division / modulo by {o!r}")
+        k = z3.BitVecVal(o, 64)
+        r = z3.SRem(self.e, k)
+        r = z3.If(r < 0, r + k, r)
+        return (self.e - r) / k, r
+    def __mod__(self, o):
+        if SymF64.lift(o) is not None and SymI64.lift(o) is None: return NotImplemented
+        return type(self)(self._divmod_const(o)[1])
+    def __floordiv__(self, o):
+        if SymF64.lift(o) is not None and SymI64.lift(o) is None: return NotImplemented
+        return type(self)(self._divmod_const(o)[0])
     def __neg__(self): return type(self)(-self.e)
     def __pos__(self): return self
     def __abs__(self): return type(self)(z3.If(self.e < 0, -self.e, self.e))
@@ -611,6 +639,10 @@ class SymF64:
         c = ctx()
         if c.branch(z3.fpIsNaN(self.e)):
             return float("nan")
+        if c.branch(z3.fpIsInf(self.e)):
+            return float("-inf") if c.branch(z3.fpIsNegative(self.e)) else float("inf")
+        if c.branch(z3.fpIsZero(self.e)):
+            return -0.0 if c.branch(z3.fpIsNegative(self.e)) else 0.0
         import struct
         v = c.concretise(self.bits(), signed=False)
         return struct.unpack("<d", struct.pack("<Q", v))[0]
